@@ -269,7 +269,7 @@ impl World {
 
     /// Plans for the SimHandler invocations of this message, in order (k-th invocation <-> k-th
     /// entry), derived with the model resolver.
-    fn plans_for(&self, msg: &Msg) -> Vec<Plan> {
+    pub fn plans_for(&self, msg: &Msg) -> Vec<Plan> {
         let mut plans = Vec::new();
         let mut level: Vec<usize> = Vec::new();
         for (i, u) in msg.units.iter().enumerate() {
